@@ -913,9 +913,11 @@ func (h *vfC15) op(f []string) string {
 		// a fault at EVERY statement of the synchronisation, the cache restored in between
 		snap := h.snapshot(h.rawC)
 		var res []string
+		full := ""
 		for k := 0; ; k++ {
-			e, _, hit, _ := h.sync(k, f[1] == "post")
+			e, _, hit, tr := h.sync(k, f[1] == "post")
 			if !hit {
+				full = tr
 				h.restore(h.rawC, snap)
 				break
 			}
@@ -925,7 +927,7 @@ func (h *vfC15) op(f []string) string {
 				return "err runaway"
 			}
 		}
-		return fmt.Sprintf("ok n=%d %s | %s", len(res), strings.Join(res, " "), h.digest())
+		return fmt.Sprintf("ok n=%d tr=%s %s | %s", len(res), full, strings.Join(res, " "), h.digest())
 	case f[0] == "outage" && len(f) == 4:
 		a, ok := vfInts(f[2:])
 		if !ok {
@@ -1153,7 +1155,7 @@ func (h *vfC15) stale(mode string, u, pidOld, pidNew int) string {
 			}
 		}
 	}
-	return fmt.Sprintf("ok begin=%s finish=%s primary=%s", begin, finish, row)
+	return fmt.Sprintf("ok begin=%s finish=%s primary=%s | %s", begin, finish, row, h.digest())
 }
 
 func firstKey(m map[int64]*u2fAuthData) int64 {
